@@ -53,7 +53,10 @@ inductive GoVal where
 inductive GoVals where
   | nil
   | cons (v : GoVal) (r : GoVals)
-/-- map entries (key payload ↦ value) and struct fields (field name ↦ value) -/
+/-- map entries (key payload ↦ value) and struct fields (field name ↦ value).  The key of a
+    map entry is its JSON text (for a struct key: the JSON object `sonic.MarshalString` writes,
+    tags and `omitempty` applied); distinct keys of one Go map have distinct texts for the key
+    types of `GoTy.keyable`. -/
 inductive GoKVs where
   | nil
   | cons (k : String) (v : GoVal) (r : GoKVs)
@@ -135,6 +138,18 @@ instance [DecidableEq ε] [DecidableEq α] : DecidableEq (Except ε α)
 def GoTy.isLeaf : GoTy → Bool
   | .basic _ => true
   | .named _ _ => true
+  | _ => false
+
+/-- map key types inside the modelled fragment: (named) basic types and defined struct
+    types.  The key of an entry is carried as its JSON text (`sonic.MarshalString(key)`, for
+    a struct key the plain JSON object with the struct's tags / `omitempty` applied), see
+    `GoKVs`; every entry is decoded into a fresh key (`reflect.New(rkt)` per entry), i.e.
+    `placeKVs` decodes each key text on its own.  Pointer-typed keys (`map[*K]V`) stay
+    outside: two distinct pointers with equal pointees have the same JSON text. -/
+def GoTy.keyable : GoTy → Bool
+  | .basic _ => true
+  | .named _ _ => true
+  | .struct _ => true
   | _ => false
 
 /-- the loop `for t.Kind() == reflect.Ptr { n++; t = t.Elem() }` -/
@@ -221,7 +236,7 @@ def encP (ctx : Ctx) (J : JLayer) (F : Facts) : Nat → GoVal → Except Err IS
       let xs ← encVals ctx J F vs
       pure (IS.sliceN k et.depth key xs)
   | k, .map kt vt _ kvs => do
-      if !kt.isLeaf then throw Err.unmodelled
+      if !kt.keyable then throw Err.unmodelled
       let kk ← keyOfE ctx kt.strip
       let vk ← keyOfE ctx vt.strip
       let xs ← encMapKVs ctx J F kt kvs
@@ -346,7 +361,7 @@ def assembleMap (ctx : Ctx) (J : JLayer) (F : Facts) (pn kpn : Nat) (kty : Strin
   let kt := ptrN kpn kt0
   let vt0 ← tyOfKeyE ctx vty
   let vt := ptrN vpn vt0
-  if !kt.isLeaf then throw Err.unmodelled
+  if !kt.keyable then throw Err.unmodelled
   let es ← placeKVs J kt vt kvs
   pure (wrap (if F.ptrMap then pn else 0) (.map kt vt false es))
 
@@ -433,7 +448,7 @@ def GoVal.wt (ctx : Ctx) : GoVal → Bool
   | .nilptr _ => true
   | .ptr v => v.wt ctx
   | .slice et _ vs => vs.fit ctx et
-  | .map kt vt _ kvs => kt.isLeaf && kvs.fit ctx vt
+  | .map kt vt _ kvs => kt.keyable && kvs.fit ctx vt
   | .struct n fs =>
     match declOf ctx n with
     | none => false
@@ -454,7 +469,7 @@ end
 
 mutual
 /-- the serialiser can represent the value: every type it has to name is registered,
-    basic payloads are valid JSON-able values, map keys are of (named) basic type, a nil
+    basic payloads are valid JSON-able values, map keys are of (named) basic or struct type, a nil
     pointer points (after all its levels) to a registered type, no pointer to interface. -/
 def GoVal.encodable (ctx : Ctx) (J : JLayer) : GoVal → Bool
   | .basic t p => (keyOf ctx t).isSome && J.valid t p
@@ -462,7 +477,7 @@ def GoVal.encodable (ctx : Ctx) (J : JLayer) : GoVal → Bool
   | .nilptr t => (keyOf ctx t.strip).isSome
   | .ptr v => !v.isINil && v.encodable ctx J
   | .slice et _ vs => (keyOf ctx et.strip).isSome && vs.encodable ctx J
-  | .map kt vt _ kvs => kt.isLeaf && (keyOf ctx kt.strip).isSome && (keyOf ctx vt.strip).isSome && kvs.encodableMap ctx J kt
+  | .map kt vt _ kvs => kt.keyable && (keyOf ctx kt.strip).isSome && (keyOf ctx vt.strip).isSome && kvs.encodableMap ctx J kt
   | .struct n fs => (keyOf ctx (.struct n)).isSome && fs.encodableFields ctx J
 def GoVals.encodable (ctx : Ctx) (J : JLayer) : GoVals → Bool
   | .nil => true
@@ -478,17 +493,19 @@ end
 /-- **Supported** (explicit, decidable): a well-typed value all of whose types are
     registered and whose basic payloads are JSON-able.  This is the universe listed in the
     property: booleans, numbers, strings, named basics, registered structs, pointers at any
-    depth incl. nil at any level, slices, maps with (named) basic key types, and
-    `any`-typed fields / elements / map values holding such values or nil.
+    depth incl. nil at any level, slices, maps with (named) basic or registered struct key
+    types, and `any`-typed fields / elements / map values holding such values or nil.
+    Shared pointers are covered through the unfolding (`LVal.erase`, `marshalL`).
     Excluded (each with a witness in Props/C12.lean): nil pointer to an unregistered
-    container type (`(*[]int)(nil)`: the encoder answers "unknown type", an error),
-    pointer to interface (`*any`) and `any`-typed map keys (outside the model). -/
+    container type (`(*[]int)(nil)`: the encoder answers "unknown type", an error), values of
+    an unregistered defined type (`accepted_only_registered`: refused), pointer to interface
+    (`*any`), `any`-typed and pointer-typed map keys (outside the model). -/
 def Supported (ctx : Ctx) (J : JLayer) (v : GoVal) : Bool := v.wt ctx && v.encodable ctx J
 
 /-! ### the universe the property lists (wider than `Supported` on this tree) -/
 
 /-- every (named) basic and struct type the type mentions is registered; map keys are of
-    (named) basic type -/
+    (named) basic or struct type -/
 def GoTy.listed (ctx : Ctx) : GoTy → Bool
   | .basic k => (keyOf ctx (.basic k)).isSome
   | .named n k => (keyOf ctx (.named n k)).isSome
@@ -496,7 +513,7 @@ def GoTy.listed (ctx : Ctx) : GoTy → Bool
   | .iface => true
   | .ptr t => t.listed ctx
   | .slice t => t.listed ctx
-  | .map k v => k.isLeaf && k.listed ctx && v.listed ctx
+  | .map k v => k.keyable && k.listed ctx && v.listed ctx
 
 mutual
 /-- "a value built from registered types": booleans, numbers, strings, named basics,
@@ -533,5 +550,103 @@ def InListedUniverse (ctx : Ctx) (J : JLayer) (v : GoVal) : Bool := v.wt ctx && 
 def Ctx.ok (ctx : Ctx) : Bool :=
   ctx.reg.all (fun e => e.1 != "" && tyOfKey ctx e.1 == some e.2 && keyOf ctx e.2 == some e.1)
   && ctx.structs.all (fun s => (s.2.map (·.1)).Nodup)
+
+/-! ### registration: which types the encoder has to name -/
+
+mutual
+/-- every type the encoder looks up in `rm` while it walks the value is registered: the
+    dynamic type of every (named) basic value — the type itself, not its kind: a defined
+    type `type Topic string` is registered only if `Topic` is —, every struct type, the
+    stripped element / key / value type of every container, the stripped target of every nil
+    pointer.  (The registration half of `encodable`.) -/
+def GoVal.regd (ctx : Ctx) : GoVal → Bool
+  | .basic t _ => (keyOf ctx t).isSome
+  | .inil => true
+  | .nilptr t => (keyOf ctx t.strip).isSome
+  | .ptr v => v.regd ctx
+  | .slice et _ vs => (keyOf ctx et.strip).isSome && vs.regd ctx
+  | .map kt vt _ kvs => (keyOf ctx kt.strip).isSome && (keyOf ctx vt.strip).isSome && kvs.regd ctx
+  | .struct n fs => (keyOf ctx (.struct n)).isSome && fs.regd ctx
+def GoVals.regd (ctx : Ctx) : GoVals → Bool
+  | .nil => true
+  | .cons v r => v.regd ctx && r.regd ctx
+def GoKVs.regd (ctx : Ctx) : GoKVs → Bool
+  | .nil => true
+  | .cons _ v r => v.regd ctx && r.regd ctx
+end
+
+/-! ### shared pointers: values as a heap sees them
+
+`GoVal` is the tree `reflect` unfolds.  A Go value is a graph: the same pointer may occur at
+several positions (two fields, two slice elements, a typed field and an `any` position, the
+pending inputs of two successors of one node in a checkpoint).  `LVal` is that graph for the
+acyclic case: a `GoVal` whose pointer nodes carry the identity of the pointer (address and
+pointee type, abstracted to a number).  `internalMarshal` walks the value through
+`reflect` only — `Kind`, `IsNil`, `Elem`, `Field(i)`, `MapRange`, `Index(i)`, `Interface()` —
+and carries no state from one child to the next (source fact `encodeWalkStateless`), so
+what it writes is a function of the unfolding: `marshalL v = enc (erase v)`.  In particular
+a pointer met a second time is written exactly like the first time. -/
+
+mutual
+inductive LVal where
+  | basic (t : GoTy) (p : Payload)
+  | inil
+  | nilptr (t : GoTy)
+  | ptr (a : Nat) (v : LVal)
+  | slice (et : GoTy) (isNil : Bool) (vs : LVals)
+  | map (kt vt : GoTy) (isNil : Bool) (kvs : LKVs)
+  | struct (n : Name) (fs : LKVs)
+inductive LVals where
+  | nil
+  | cons (v : LVal) (r : LVals)
+inductive LKVs where
+  | nil
+  | cons (k : String) (v : LVal) (r : LKVs)
+end
+
+mutual
+/-- forget the identities: the tree `reflect` shows -/
+def LVal.erase : LVal → GoVal
+  | .basic t p => .basic t p
+  | .inil => .inil
+  | .nilptr t => .nilptr t
+  | .ptr _ v => .ptr v.erase
+  | .slice et n vs => .slice et n vs.erase
+  | .map kt vt n kvs => .map kt vt n kvs.erase
+  | .struct n fs => .struct n fs.erase
+def LVals.erase : LVals → GoVals
+  | .nil => .nil
+  | .cons v r => .cons v.erase r.erase
+def LKVs.erase : LKVs → GoKVs
+  | .nil => .nil
+  | .cons k v r => .cons k v.erase r.erase
+end
+
+mutual
+/-- every pointer occurrence: (identity, what it points to) -/
+def LVal.occ : LVal → List (Nat × GoVal)
+  | .ptr a v => (a, v.erase) :: v.occ
+  | .slice _ _ vs => vs.occ
+  | .map _ _ _ kvs => kvs.occ
+  | .struct _ fs => fs.occ
+  | _ => []
+def LVals.occ : LVals → List (Nat × GoVal)
+  | .nil => []
+  | .cons v r => v.occ ++ r.occ
+def LKVs.occ : LKVs → List (Nat × GoVal)
+  | .nil => []
+  | .cons _ v r => v.occ ++ r.occ
+end
+
+/-- a labelling that a heap can produce: one identity, one pointee -/
+def LVal.coherent (v : LVal) : Bool :=
+  v.occ.all fun x => v.occ.all fun y => x.1 != y.1 || x.2 == y.2
+
+/-- identities that occur at least twice -/
+def LVal.sharedCount (v : LVal) : Nat :=
+  ((v.occ.map (·.1)).eraseDups.filter fun a => ((v.occ.filter (·.1 == a)).length ≥ 2)).length
+
+/-- `internalMarshal` on a value with shared pointers -/
+def marshalL (ctx : Ctx) (J : JLayer) (F : Facts) (v : LVal) : Except Err IS := enc ctx J F v.erase
 
 end EinoV.C12
